@@ -150,6 +150,16 @@ func Envelope(seps []string, size, ov int) int {
 	return d
 }
 
+// Timeouts counts the calls that hit the wall-clock guard in this process. A call that does not
+// return keeps spinning in its goroutine, so after MaxTimeouts of them the commands stop feeding
+// further cases (reported as "skipped"): the verdict is a violation anyway.
+var Timeouts int
+
+const MaxTimeouts = 2
+
+// Tripped reports whether the process should stop executing further cases.
+func Tripped() bool { return Timeouts >= MaxTimeouts }
+
 // Guard runs f under a panic and a wall-clock guard.
 func Guard(d time.Duration, f func()) (panicked string, timedOut bool) {
 	done := make(chan string, 1)
@@ -169,6 +179,7 @@ func Guard(d time.Duration, f func()) (panicked string, timedOut bool) {
 	case p := <-done:
 		return p, false
 	case <-t.C:
+		Timeouts++
 		return "", true
 	}
 }
